@@ -83,6 +83,21 @@ Theorem C13_path_independent : forall O top t k a,
 Proof. exact migrate_path_independent. Qed.
 Print Assumptions C13_path_independent.
 
+(** The conditional form is as far as it goes.  The unconditional reading
+    (also when the one run fails, the split run fails alike) is false:
+    [schema_version: 9, rlimit_nofile: 2.0] fails in one run (step 11 rejects
+    the float64) and succeeds when split at version 10, because the file
+    written at version 10 holds [2].  Known finding path-dependent-whole-float. *)
+Theorem C13_path_independent_unconditional_refuted :
+  exists O top t k, version_of (input_map top) < k < t /\
+    migrate O top t = OErr /\ exists c, split_run O top k t = ONew c.
+Proof. exact path_independent_unconditional_refuted. Qed.
+Print Assumptions C13_path_independent_unconditional_refuted.
+
+Theorem C13_path_independent_unconditional_false : ~ path_independent_unconditional_statement.
+Proof. exact path_independent_unconditional_false. Qed.
+Print Assumptions C13_path_independent_unconditional_false.
+
 (** The same at the level of the step table, for any in-memory tree (typed
     values anywhere) and any range of steps: running the steps on the tree or
     on its re-read form leads to the same file. *)
